@@ -84,6 +84,14 @@ class Shadow:
                 M[z(0)] = None
             elif op == "m_resize":
                 M[z(0)] = self.zeros(z(1), z(2))
+            elif op in ("m_sort", "m_rsort"):
+                # MatrixSort / MatrixReverseSort: exchange sort of the rows by one column (whole rows move, full double precision keys)
+                m = M[z(0)]
+                rows, kc = m[2], z(1)
+                for i_ in range(m[0]):
+                    for j_ in range(i_ + 1, m[0]):
+                        if (rows[i_][kc] > rows[j_][kc]) if op == "m_sort" else (rows[i_][kc] < rows[j_][kc]):
+                            rows[i_], rows[j_] = rows[j_], rows[i_]
             elif op == "m_copy":
                 s = M[z(0)]
                 M[z(1)] = [s[0], s[1], [list(r) for r in s[2]]]
@@ -415,8 +423,10 @@ def gen_history(rng, length, kinds):
             else:
                 k = rng.choice(lv)
                 r, c_ = sh.M[k][0], sh.M[k][1]
-                o = rng.choice(("approw", "approw", "appcol", "appcol", "appuirow", "appuicol", "delrow", "delcol", "set", "get", "resize", "copy", "fill", "getrow", "getcol", "del"))
-                if o in ("approw", "appcol"):
+                o = rng.choice(("approw", "approw", "appcol", "appcol", "appuirow", "appuicol", "delrow", "delcol", "set", "get", "resize", "copy", "fill", "getrow", "getcol", "del", "sort", "rsort"))
+                if o in ("sort", "rsort"):
+                    t = ["m_" + o, k, rng.randrange(c_)] if (c_ > 0 and r > 0) else None
+                elif o in ("approw", "appcol"):
                     want = around(rng, c_ if o == "approw" else r)
                     # make (or reuse) a dvector of the wanted length
                     dl = [j for j in live(sh.D) if len(sh.D[j]) == want]
@@ -721,6 +731,11 @@ def run(ck, rng, tier):
     hs[4] = [["t_init", 0], ["t_addmat", 0, 2, 2], ["t_set", 0, 0, 1, 1, 2.5], ["t_init", 1], ["t_addmat", 1, 1, 3], ["t_addmat", 1, 2, 1], ["t_addmat", 1, 3, 2],
              ["t_set", 1, 2, 1, 1, -1.0], ["t_copy", 1, 0], ["t_get", 0, 2, 1, 1], ["t_copy", 0, 1], ["t_init", 2], ["t_copy", 2, 1], ["t_addmat", 1, 1, 1]]
     hs[1] = [["s_init", 0], ["s_appdbl", 0, 1e57], ["s_appdbl", 0, -3.5e120], ["s_appdbl", 0, 1e300], ["s_appdbl", 0, 0.25], ["s_new", 1, 2], ["s_extend", 0, 1, 2]]
+    if len(hs) > 6:
+        # sorting the rows of a matrix by a key column whose distinct values are closer than single precision resolves
+        near = [0.3, 0.30000001, 0.25, 0.125, 0.30000002, 1000000.01, 1000000.02]
+        hs[6] = [["m_new", 0, 7, 2]] + [["m_set", 0, q, 0, near[q]] for q in range(7)] + [["m_set", 0, q, 1, float(q)] for q in range(7)] + \
+                [["m_init", 1], ["m_copy", 0, 1], ["m_rsort", 0, 0], ["m_sort", 1, 0], ["m_get", 0, 0, 1], ["m_sort", 0, 0], ["m_rsort", 1, 0]]
     if len(hs) > 5:
         # texts made of white space only (one blank, a tab, several), the empty text, padded text
         hs[5] = [["s_init", 0], ["s_split", 0, "_a;b_", ";"], ["s_split", 0, "_", ";"], ["s_split", 0, "~", "_;"], ["s_split", 0, "___", ";"], ["s_split", 0, "@", ";"],
